@@ -433,9 +433,10 @@ static void ctl_cb(tpt_p tpt, void *udata) { /* runs an actor program on a pool 
 
 static tpt_p thr(int i) { return (i == (int)g_n) ? g_tp->pvt : &g_tp->threads[i]; }
 
-static int g_msg_next_internal = 3000; /* ids for ctl / sentinel messages */
+static int g_msg_next_internal = 60000; /* ids for ctl / sentinel messages: slots 60000..65535, scenario ids stay below */
+#define NEXT_INTERNAL_ID() (60000 + ((g_msg_next_internal++ - 60000) % 5000))
 static hmsg_t *msg_get(int id, int kind) {
-	hmsg_t *m = &g_msg[id % MAXMSG];
+	hmsg_t *m = &g_msg[(id >= 60000) ? (id % MAXMSG) : (id % 60000)];
 	m->id = id; m->kind = kind; m->finished = 0;
 	return m;
 }
@@ -445,7 +446,7 @@ static void do_quiesce(void) {
 	for (int round = 0; round < 2; round++) {
 		for (size_t i = 0; i < g_n; i++) {
 			if (g_tp->threads[i].state != TP_THREAD_STATE_RUNNING) continue;
-			hmsg_t *m = msg_get(g_msg_next_internal++, K_SENT); m->sem = &s;
+			hmsg_t *m = msg_get(NEXT_INTERNAL_ID(), K_SENT); m->sem = &s;
 			int rc;
 			for (int tries = 0; tries < 20000; tries++) {
 				rc = tpt_msg_send(&g_tp->threads[i], NULL, 0, sent_cb, m);
@@ -719,7 +720,7 @@ int main(int argc, char **argv) {
 			if (nm[0] == 'e') {
 				__real_pthread_create(&g_act[i].thr, NULL, ext_main, (void *)(intptr_t)i);
 			} else { /* worker actor: control message */
-				hmsg_t *m = msg_get(g_msg_next_internal++, K_CTL);
+				hmsg_t *m = msg_get(NEXT_INTERNAL_ID(), K_CTL);
 				m->prog = g_act[i].prog; g_act[i].ctl = m;
 				int w = atoi(nm + 1);
 				LOGEV("\"e\":\"call.ctl\",\"m\":%d,\"d\":%d", m->id, w);
@@ -727,7 +728,7 @@ int main(int argc, char **argv) {
 				LOGEV("\"e\":\"ret.ctl\",\"m\":%d,\"rc\":%d", m->id, rc);
 				for (int tries = 0; rc != 0 && rc != EHOSTDOWN && tries < 50; tries++) { /* an armed fault or a full pipe hit the control message */
 					usleep(200);
-					m = msg_get(g_msg_next_internal++, K_CTL); m->prog = g_act[i].prog; g_act[i].ctl = m;
+					m = msg_get(NEXT_INTERNAL_ID(), K_CTL); m->prog = g_act[i].prog; g_act[i].ctl = m;
 					LOGEV("\"e\":\"call.ctl\",\"m\":%d,\"d\":%d", m->id, w);
 					rc = tpt_msg_send(&g_tp->threads[w], NULL, 0, ctl_cb, m);
 					LOGEV("\"e\":\"ret.ctl\",\"m\":%d,\"rc\":%d", m->id, rc);
